@@ -33,6 +33,7 @@ func init() {
 		Rule{ID: "R05c", Doc: "delivery by reply ID, at most once", Floor: 5, AllVariants: true, Run: r05c},
 		Rule{ID: "R05d", Doc: "ID rewrite on a private copy / restore", Floor: 5, AllVariants: true, Run: r05d},
 		Rule{ID: "R05e", Doc: "retire, never wrap", Floor: 2, AllVariants: true, Run: r05e},
+		Rule{ID: "R01f", Doc: "narrowing conversions in the transports (query id, length prefix) are range-proved", Floor: 2, Run: r01fTransport},
 	)
 	reg("C06", "Structural necessary conditions of clean reuse of one-at-a-time connections, decided for all paths: "+
 		"(R06a) the idle set is inserted only by releaseConn, only where its error parameter is nil and the transport is open, under the transport mutex, and removed only by getIdleConn before the connection is handed out; "+
